@@ -119,6 +119,16 @@ def _entry_points(tier, seed):
                                      {'div', 'select_n', 'lt', 'le', 'gt', 'ge', 'max', 'min', 'eq', 'ne', 'and', 'or', 'not', 'abs'})
   eps['interp:linear_interp_with_linear_extrap(query)'] = (lambda x: jax.vmap(lambda xx: vi.linear_interp_with_linear_extrap(xx, xp, fps[0]))(x), [q],
                                                            {'div', 'select_n', 'gather', 'dynamic_slice', 'lt', 'le', 'gt', 'ge', 'max', 'min', 'eq', 'ne', 'and', 'or', 'not'})
+  # scan combinators with scanned-over inputs xs (per-step forcing): derivatives w.r.t. init AND xs must flow through every nesting level
+  def forced_body(c, x):
+    c2 = c + 0.1 * jnp.sin(c) * x - 0.05 * c * c
+    return c2, c2 * x
+  c0 = jnp.asarray([0.3, -0.7, 1.1])
+  xs0 = jnp.asarray(np.random.RandomState(12).randn(12, 3))
+  for nested in ((12,), (3, 4), (2, 3, 2)):
+    eps[f'scan:nested_checkpoint_scan{nested}(init, xs)'] = (
+        (lambda cx, nested=nested: ti.nested_checkpoint_scan(forced_body, cx[0], cx[1], nested_lengths=nested)), [(c0, xs0), (jnp.zeros(3), xs0)],
+        {'sin'})
   return eps
 
 
@@ -254,6 +264,29 @@ def run_checkpoint(ctx):
       nm = f'nested_checkpoint_scan({total} steps, nested_lengths={nested}): value and gradient equal the flat scan'
       (out.ok(nm, 'numeric', sample={'obligation': nm, 'rel': e}) if e <= 1e-11 and bool(jnp.all(jnp.isfinite(grad))) else
        out.fail(nm, witness={'total': total, 'nested': nested}, detail=f'{e:.3e}', key='nested checkpoint gradient'))
+    # scanned-over inputs: gradients w.r.t. xs (per-step forcing) and init for every nesting equal the flat lax.scan and finite differences
+    def fb(c, x):
+      c2 = c + 0.1 * jnp.sin(c) * x - 0.05 * c * c
+      return c2, c2 * x
+    cc0 = jnp.asarray([0.3, -0.7, 1.1])
+    xx0 = jnp.asarray(np.random.RandomState(12).randn(total, 3))
+    wv = jnp.asarray(np.random.RandomState(13).randn(3))
+
+    def lossx(c, xs_, nested):
+      cf, ys = (jax.lax.scan(fb, c, xs_) if nested is None else ti.nested_checkpoint_scan(fb, c, xs_, nested_lengths=nested))
+      return jnp.vdot(cf, wv) + jnp.sum(ys * ys)
+    gref = jax.grad(lambda c, x: lossx(c, x, None), argnums=(0, 1))(cc0, xx0)
+    # central finite difference of the flat reference along one random direction in xs
+    dx = jnp.asarray(np.random.RandomState(14).randn(total, 3))
+    h = 1e-5
+    fd = (lossx(cc0, xx0 + h * dx, None) - lossx(cc0, xx0 - h * dx, None)) / (2 * h)
+    for nested in facts(total):
+      g = jax.grad(lambda c, x: lossx(c, x, nested), argnums=(0, 1))(cc0, xx0)
+      e = max(float(jnp.abs(g[0] - gref[0]).max()), float(jnp.abs(g[1] - gref[1]).max())) / max(1e-300, float(jnp.abs(gref[1]).max()))
+      efd = abs(float(jnp.vdot(g[1], dx) - fd)) / max(1e-12, abs(float(fd)))
+      nm = f'nested_checkpoint_scan({total} steps, nested_lengths={nested}) with scanned inputs: gradients w.r.t. init and xs equal lax.scan and finite differences'
+      (out.ok(nm, 'numeric', sample={'obligation': nm, 'rel': e, 'fd_rel': efd}) if e <= 1e-11 and efd <= 1e-6 else
+       out.fail(nm, witness={'total': total, 'nested': nested}, detail=f'vs flat scan {e:.3e}; vs finite difference {efd:.3e}', key='nested checkpoint gradient w.r.t. scanned inputs'))
     # trajectory_from_step / repeated with checkpointing
     for outer, inner in ((3, 4), (4, 3)):
       def loss2(v, ck):
